@@ -14,7 +14,7 @@ from .values import (SArr, SObj, SMap, SSet, SegList, Opq, NT, is_z3, to_z3, fre
                      fresh_U, U, kind_sort, kind_leaves, fresh_name)
 from fractions import Fraction
 
-MUTATORS = {'append', 'pop', 'insert', 'extend', 'sort', 'remove', 'clear', 'add', 'discard', 'update',
+MUTATORS = {'append', 'push_back', 'pop', 'insert', 'extend', 'sort', 'remove', 'clear', 'add', 'discard', 'update',
             'setdefault', 'reverse', 'popitem', 'fill', 'put', 'resize'}
 PURE_METHODS = {'copy', 'get', 'keys', 'values', 'items', 'index', 'count', 'startswith', 'endswith', 'split', 'join',
                 'format', 'any', 'all', 'sum', 'astype', 'conj', 'lower', 'upper', 'strip', 'replace'}
@@ -303,7 +303,8 @@ def describe_iter(I, it):
     raise Unsupported(f'loop over {type(it).__name__} with invariant')
 
 
-LEMMA_BUILTINS = {'sum_unfold', 'sum_split', 'sum_nonneg', 'mul_distrib', 'swap_val'}
+LEMMA_BUILTINS = {'sum_unfold', 'sum_split', 'sum_nonneg', 'mul_distrib', 'swap_val', 'cmod_python', 'sum_mono'}
+PROVED_LEMMAS = {'cmod_python', 'sum_mono'}     # their closed statement is an obligation of the same run
 
 
 def assume_lemmas(I, lemmas):
@@ -317,7 +318,8 @@ def assume_lemmas(I, lemmas):
             fact = I.eval(node)
         finally:
             I.spec_mode -= 1
-        I.trusted.add('lemma instance: ' + node.func.id)
+        if node.func.id not in PROVED_LEMMAS:
+            I.trusted.add('lemma instance: ' + node.func.id)
         I.assume(I.z3bool(fact))
 
 
